@@ -33,12 +33,13 @@ TextCap == IF Build = "none" THEN 20 ELSE 0
 VARIABLES l,       \* index of the next event
           ps,      \* [parser id -> AisParser state]   (function with a growing finite domain)
           lost,    \* set of parser ids whose state is unknown after a class mismatch
+          caphit,  \* set of parser ids whose open group lost a fragment to a fixed capacity (no-allocator build)
           viol,    \* sequence of recorded violations [i, prop, what] (first MaxViol)
           nviol,   \* [property -> count]
           devs,    \* [deviation id -> number of observations matched only through it]
           cnt      \* counters: [events, lines, classes, types, unspec, lostskip]
 
-vars == <<l, ps, lost, viol, nviol, devs, cnt>>
+vars == <<l, ps, lost, caphit, viol, nviol, devs, cnt>>
 
 Props == {"C01", "C02", "C03", "C04", "C05", "C06", "C07", "C08", "C09", "C10", "C11", "C12",
           "C13", "C14", "C15", "C16", "C17", "C18", "C19", "C20", "X"}
@@ -342,6 +343,7 @@ JudgeCliEnd(e) ==
 Init == /\ l = 1
         /\ ps = [p \in {} |-> Fresh]
         /\ lost = {}
+        /\ caphit = {}
         /\ viol = << >>
         /\ nviol = [p \in Props |-> 0]
         /\ devs = [d \in DevIds |-> 0]
@@ -379,24 +381,33 @@ EvNew(e) ==
     /\ e.op = "new"
     /\ ps' = [q \in (DOMAIN ps) \cup {e.p} |-> IF q = e.p THEN Fresh ELSE ps[q]]
     /\ lost' = lost \ {e.p}
+    /\ caphit' = caphit \ {e.p}
     /\ AddViol(l, {}) /\ AddDevs({}) /\ Bump(e, "", FALSE, FALSE)
 
 EvLine(e) ==
     /\ e.op = "line"
     /\ IF e.p \in lost
        THEN \* state unknown: only totality and twin equality are judged
-            /\ UNCHANGED <<ps, lost>>
+            /\ UNCHANGED <<ps, lost, caphit>>
             /\ AddViol(l, (IF e.r = "panic" THEN V("C01", "panic: " \o e.pmsg) ELSE {}) \cup TwinViol(e))
             /\ AddDevs({}) /\ Bump(e, "", FALSE, TRUE)
        ELSE LET j == JudgeLine(e, StateOf(e.p))
             IN  /\ ps' = [q \in (DOMAIN ps) \cup {e.p} |-> IF q = e.p THEN j.st ELSE ps[q]]
                 /\ lost' = IF j.lost THEN lost \cup {e.p} ELSE lost
-                /\ AddViol(l, j.viol \cup TwinViol(e))
+                \* a fragment refused for lack of room poisons its group until a new group is opened
+                /\ caphit' = IF j.class = "reject_cap" THEN caphit \cup {e.p}
+                              ELSE IF j.class = "open" THEN caphit \ {e.p} ELSE caphit
+                \* ... and whatever the build still accepts or delivers for that group is a silent truncation (C18)
+                /\ AddViol(l, j.viol \cup TwinViol(e)
+                              \cup (IF e.p \in caphit /\ (\E v \in j.viol : v[1] \in {"C05", "C06"})
+                                        /\ e.r \in {"complete", "incomplete"}
+                                    THEN V("C18", "group continued / delivered after one of its fragments was refused for capacity (silent truncation)")
+                                    ELSE {}))
                 /\ AddDevs(j.devs) /\ Bump(e, j.class, j.unspec, FALSE)
 
 EvPure(e) ==
     /\ e.op \in {"unarmor", "decode", "ship", "rot"}
-    /\ UNCHANGED <<ps, lost>>
+    /\ UNCHANGED <<ps, lost, caphit>>
     /\ AddViol(l, (CASE e.op = "unarmor" -> JudgeUnarmor(e)
                      [] e.op = "decode" -> JudgeDecode(e)
                      [] e.op = "ship" -> JudgeShip(e)
@@ -407,20 +418,21 @@ EvPure(e) ==
 EvCli(e) ==
     /\ e.op = "cli"
     /\ IF 0 \in lost
-       THEN /\ UNCHANGED <<ps, lost>> /\ AddViol(l, {}) /\ AddDevs({}) /\ Bump(e, "", FALSE, TRUE)
+       THEN /\ UNCHANGED <<ps, lost, caphit>> /\ AddViol(l, {}) /\ AddDevs({}) /\ Bump(e, "", FALSE, TRUE)
        ELSE LET j == JudgeCli(e, StateOf(0))
             IN  /\ ps' = [q \in (DOMAIN ps) \cup {0} |-> IF q = 0 THEN j.st ELSE ps[q]]
                 /\ lost' = IF j.lost THEN lost \cup {0} ELSE lost
+                /\ UNCHANGED caphit
                 /\ AddViol(l, j.viol) /\ AddDevs({}) /\ Bump(e, j.class, j.unspec, FALSE)
 
 EvCliEnd(e) ==
     /\ e.op = "cliend"
-    /\ UNCHANGED <<ps, lost>>
+    /\ UNCHANGED <<ps, lost, caphit>>
     /\ AddViol(l, JudgeCliEnd(e)) /\ AddDevs({}) /\ Bump(e, "", FALSE, FALSE)
 
 EvMeta(e) ==
     /\ e.op \notin {"new", "line", "unarmor", "decode", "ship", "rot", "cli", "cliend"}
-    /\ UNCHANGED <<ps, lost>>
+    /\ UNCHANGED <<ps, lost, caphit>>
     /\ AddViol(l, {}) /\ AddDevs({}) /\ Bump(e, "", FALSE, FALSE)
 
 Report ==
